@@ -197,7 +197,13 @@ def run_case(case):
     nrows = (case["cw"] - case["kw"] + 1) ** nd
     ncols = nc * case["kw"] ** nd
     sigdim = (case["kw"] + 2) ** nd
-    if case["kind"] == "bandlimited" and nrows >= 2 * sigdim and ncols >= 1.4 * sigdim:
+    # at thresh = 1e-3 the whole signal subspace is kept and recovery is exact as soon as a
+    # null space exists (ncols >= 1.4 sigdim); at the default 0.02 the weakest signal
+    # directions are truncated, and with a thin margin (e.g. 4 coils, kernel 3: 36 columns for
+    # 25 signal directions) the converged maps miss by up to 0.1 - the method's own
+    # truncation error, so recovery at the default is only decided with ncols >= 2 sigdim
+    margin = 1.4 if case["thresh"] <= 1e-3 else 2.0
+    if case["kind"] == "bandlimited" and nrows >= 2 * sigdim and ncols >= margin * sigdim:
         kw = case["kw"]
         interior = np.zeros(shape, bool)
         interior[tuple(slice(kw, s - kw) for s in shape)] = True
